@@ -287,6 +287,7 @@ def run(prog, chk):
     substr_window(prog, chk, "C06.o")
     cstring_view_probed(prog, chk, "C06.p")
     replace_searches_whole_rest(prog, chk, "C06.q")
+    argument_block_snapshots(prog, chk, "C06.r", fs)
 
 
 def formatted_length(prog, chk, fs):
@@ -949,3 +950,64 @@ def replace_searches_whole_rest(prog, chk, rid):
                         q.no_casts(f.r(c))[:30], q.no_casts(f.r(bad[0]))[:50], nd), evals=len(atoms) + 1)
         else:
             chk.ok(rid, f, "search `%s` runs whenever a needle still fits" % q.no_casts(f.r(c))[:30], f.where(c), "%d guarding condition(s) evaluated" % len(atoms), evals=len(atoms) + 1)
+
+
+def argument_block_snapshots(prog, chk, rid, fs):
+    """`s.prepend(s)`: the argument may be this String.  A pointer taken from the argument's block before detach() (`strData = str.data`,
+    `p = str.data->str`) still names the OLD block afterwards; detach() frees that block when this String was its only owner and had
+    to grow.  Such a pointer may be used after the detach only while a String local copied from *this keeps the old block alive."""
+    chk.rule(rid, "ALIAS: a pointer local taken from the block of a `const String&` parameter before a detach() of this String is not used "
+                  "after that detach unless a String local initialised from *this (a reference on the old block) is in scope", floor=1)
+    n = 0
+    for f in fs:
+        if f.short == "detach" or not f.blocks:
+            continue
+        det = [c for c in q.calls(f) if (f.nodes[c].get("callee") or "").endswith("String::detach") and
+               (q.call_object(f, c) is None or f.nodes[q.call_object(f, c)]["k"] == "CXXThisExpr")]
+        ps = [p for p in f.params if p["t"] == "const String &"]
+        if not det or not ps:
+            continue
+        defs = q.local_defs(f)
+        keepers = [nd for nd in range(len(f.nodes)) if f.nodes[nd]["k"] == "DeclStmt" and
+                   any(d.get("t") == "String" and d.get("init") is not None and
+                       q.no_casts(f.r(d["init"])).replace(" ", "") in ("*this", "copy(*this)", "String(*this)") or
+                       d.get("t") == "String" and d.get("init") is not None and re.search(r"\(\*this\)$|^\*this$", q.no_casts(f.r(d["init"])).replace(" ", ""))
+                       for d in f.nodes[nd]["decls"])]
+        for did, dl in defs.items():
+            for kind, nd, init in dl:
+                if init is None or kind == "addr":
+                    continue
+                src = [x for x in [f.strip(init)] + list(f.desc(init)) if f.nodes[x]["k"] == "MemberExpr" and f.nodes[x].get("m") == "data" and
+                       f.nodes[x]["c"] and q.no_casts(f.r(f.nodes[x]["c"][0])) in [p["n"] for p in ps]]
+                if not src:
+                    continue
+                ty = next((d_.get("t") for n_ in f.nodes if n_["k"] == "DeclStmt" for d_ in n_["decls"] if d_["id"] == did), "") or ""
+                if "*" not in ty:
+                    continue        # a value read from the block (a length), not a pointer into it
+                n += 1
+                nm = next((n_["ref"]["n"] for n_ in f.nodes if n_["k"] == "DeclRefExpr" and n_["ref"].get("id") == did), "?")
+                uses = [i for i, n_ in enumerate(f.nodes) if n_["k"] == "DeclRefExpr" and n_["ref"].get("id") == did and f.node_pos(i) is not None]
+                others = [x[1] for x in dl if x[1] != nd and x[2] is not None]
+                bad = None
+                for ev in det:
+                    if not q.reaches(f, nd, ev):
+                        continue
+                    kept = any(f.node_pos(k_) is not None and f.dominates_pos(f.node_pos(k_), f.node_pos(ev)) for k_ in keepers)
+                    if kept:
+                        continue
+                    for u in uses:
+                        if q.reaches(f, ev, u, avoid_nodes=others) and u not in f.desc(ev):
+                            bad = (ev, u)
+                            break
+                    if bad:
+                        break
+                if bad:
+                    chk.bad(rid, f, "argument-block-used-after-detach:" + nm, f.where(bad[1]),
+                            "`%s` was taken from `%s` before `%s`; when the argument is this String itself, is its only owner and has to grow, "
+                            "detach() frees that block - `%s` is then read from freed memory (s.%s(s))" % (
+                                nm, q.no_casts(f.r(init))[:30], q.no_casts(f.r(bad[0]))[:40], nm, f.short), evals=len(det) * max(1, len(uses)))
+                else:
+                    chk.ok(rid, f, "block pointer `%s` of the argument is kept alive across detach or not used after it" % nm, f.where(nd),
+                           "%d detach call(s), %d keeper local(s)" % (len(det), len(keepers)), evals=max(1, len(det)))
+    if n == 0:
+        raise AnalysisBroken("C06.r: no member takes a pointer from its String argument's block before detach (String::prepend(const String&) expected)")
